@@ -24,14 +24,19 @@ func C16(c *core.Ctx) {
 	}
 
 	c.SetCov("rule", "seeded randomised PFCP histories on the UP4 datapath with boundary values (precedences 0 / 65535 / beyond, any 32-bit TEID and address, "+
-		"QFIs up to 63, port ranges touching 0 and 65535, prefix lengths 1..32, slice ids 0..15, traffic classes 0..3); every update the harness' P4Runtime "+
+		"QFIs up to 63, port ranges touching 0 and 65535, prefix lengths 1..32, slice ids 0..15, traffic classes 0..3; one shard in six first establishes 530 sessions that drain both meter pools); every update the harness' P4Runtime "+
 		"server received is judged by P4Valid!WriteValid against the P4Info parsed from the shipped file; the constants generator is run several times on the "+
 		"shipped P4Info and its output compared byte for byte with itself and (after gofmt) with the committed constants; evaluations = script steps")
 
 	res := runE2EShards(c, "e2e-up4", shards, "TraceE2E_C16.cfg", func(i int) interface{} {
 		d, tr := shardDir(c, i)
-		return Up4Params{Dir: d, Trace: tr, AgentBin: filepath.Join(c.BinDir, "verif-agent"), N4Addr: n4For(i), Seed: c.Seed*1000 + 500 + int64(i), Scenarios: scen, Steps: steps,
+		pr := Up4Params{Dir: d, Trace: tr, AgentBin: filepath.Join(c.BinDir, "verif-agent"), N4Addr: n4For(i), Seed: c.Seed*1000 + 500 + int64(i), Scenarios: scen, Steps: steps,
 			Kill: i%3 == 0, AddFlows: true, Wide: true}
+		if i%6 == 1 { // the meter pools are drained first: indices at the edge of the arrays
+			pr.Drain, pr.Kill = 530, false
+		}
+
+		return pr
 	})
 	judgeE2E(c, res, map[string]bool{"InEnvelope": true})
 
